@@ -1,22 +1,32 @@
 #!/bin/bash
-# Offline build of the whole framework from files on disk:
-#  - full .vo build of the Coq development (models, proofs, property theorems)
-#  - extraction + OCaml model drivers for every property that has a Run/Cxx.v
-#  - the Rust harness against /repo's working tree (hooks on)
+# Offline build of the framework from files on disk, for every property claimed
+# in MANIFEST.json:
+#  - full .vo build of the property's Coq closure (models, proofs, theorems)
+#  - extraction + OCaml model driver
+#  - the Rust harness binary against /repo's working tree (hooks on)
 set -e
 cd "$(dirname "$0")"
 export CARGO_NET_OFFLINE=true
 mkdir -p .cache evidence replays
-coq/build.sh
+IDS=$(python3 -c "import json; print(' '.join(c['property_id'] for c in json.load(open('MANIFEST.json'))['checks']))")
+TARGETS=""
+for id in $IDS; do TARGETS="$TARGETS Props/$id.vo Run/$id.vo"; done
+coq/build.sh $TARGETS
 [ -f harness/Cargo.lock ] || cp /repo/Cargo.lock harness/Cargo.lock
-(cd harness && cargo build --offline --quiet --bins)
-python3 - <<'PY'
-import sys, os, glob
+python3 - $IDS <<'PY'
+import sys, os
 sys.path.insert(0, "lib")
+sys.path.insert(0, ".")
+import importlib
 import vcommon as vc
-for f in sorted(glob.glob("coq/Run/C*.v")):
-    pid = os.path.basename(f)[:-2]
+for pid in sys.argv[1:]:
     vc.build_driver(pid)
-    print("driver", pid, "ok")
+    mod = importlib.import_module("gen." + pid.lower())
+    ctx = {"pid": pid, "tier": "quick", "seed": 1, "vc": vc, "known": {}, "setup": True}
+    if hasattr(mod, "prepare"):
+        mod.prepare(ctx)
+    else:
+        vc.build_harness(pid.lower())
+    print("built", pid)
 PY
 echo setup ok
